@@ -27,6 +27,7 @@ type scenOpts struct {
 	failPct     int
 	keys        [][]byte // key alphabet (default scenKeys)
 	errKinds    bool     // failing builders may return errors wrapping context / cache sentinel errors
+	nested      bool     // builders may call Get for a later key of the scenario (acyclic dependencies)
 	restorePrep bool     // the initial backend state may arrive through Restore of another instance's dump
 }
 
@@ -164,6 +165,11 @@ func drawScenario(c *Case, o scenOpts) *scenario {
 
 			g.cancelBefore = c.Weighted("cancel-before", 5, 1) == 1
 			g.deadline = c.Weighted("deadline", 3, 1) == 1
+		}
+
+		if o.nested && ki+1 < sc.nkeys && c.Weighted("nested-get-in-builder", 4, 1) == 1 {
+			g.nestedKey = sc.keys[ki+1+c.Pick("nested-key", sc.nkeys-ki-1)]
+			c.Class("builder-calls-Get-for-another-key")
 		}
 
 		if o.postActions {
